@@ -149,8 +149,12 @@ def phase2(file):
             sh("git checkout -q -- . && git clean -fdq", cwd=wt)
             sh("%s -file /repo/%s -n %s -out %s/%s" % (MUT, file, idx, wt, file))
             verdict, by = "MISSED", ""
-            for prop in CHECKS[file]:
-                rc, o = sh("./check %s quick -no-evidence" % prop, cwd=VERIF, timeout=3600, env=dict(os.environ, VERIF_REPO=wt))
+            stages = [(prop, {}) for prop in CHECKS[file]]
+            if file.startswith(("hseq/", "optics/")):
+                # a reduced shape set first (compiles in seconds), the full quick tier only for what survives it
+                stages = [(prop, {"VERIF_SHAPES": "mini"}) for prop in CHECKS[file]] + stages
+            for prop, extra in stages:
+                rc, o = sh("./check %s quick -no-evidence" % prop, cwd=VERIF, timeout=3600, env=dict(os.environ, VERIF_REPO=wt, **extra))
                 if rc == 1 and "VIOLATION" in o:
                     verdict, by = "DETECTED", prop
                     break
